@@ -595,10 +595,11 @@ def run(tier, seed):
     cpu = {}
     max_dev = {f"{e:g}": 0.0 for e in EPS}
     min_move = np.inf
-    trivial = 0
+    gap = np.inf
+    trivial = set()
 
     def account(case, r, cls, nsteps):
-        nonlocal evaluations, n_states, max_ratio, min_move, trivial
+        nonlocal evaluations, n_states, max_ratio, min_move, gap
         evaluations += 1
         n_states += r["n_states"]
         cpu[case["producer"]] = cpu.get(case["producer"], 0.0) + r.get("cpu", 0.0)
@@ -626,14 +627,18 @@ def run(tier, seed):
             if dev / tol > max_ratio:
                 max_ratio = dev / tol
                 worst[0] = dict(case, dev=float("%.2g" % dev), tol=float("%.3g" % tol))
-        if not r["move"] > MOVE:
-            trivial += 1
-        else:
-            key = tuple(sorted((k, str(v)) for k, v in case.items() if k != "epsrel"))
-            nontrivial.add(key)
-            min_move = min(min_move, r["move"])
-            if psd and r.get("lm_abs", 1.0) < TIGHT:
-                tight.add(key)
+        # non-triviality is decided on the epsrel=1e-8 leg only (its truncation noise is ~1e-7, so the count does not
+        # depend on run-to-run floating point differences); both legs of a non-trivial key are checked anyway
+        key = tuple(sorted((k, str(v)) for k, v in case.items() if k != "epsrel"))
+        if eps == min(EPS):
+            gap = min(gap, abs(r["move"] - MOVE))
+            if r["move"] > MOVE:
+                nontrivial.add(key)
+                min_move = min(min_move, r["move"])
+                if psd and r.get("lm_abs", 1.0) < TIGHT:
+                    tight.add(key)
+            else:
+                trivial.add(key)
 
     for grp in gres:
         for case, r in grp:
@@ -683,7 +688,9 @@ def run(tier, seed):
         "headroom": _r3(1.0 / max_ratio) if max_ratio > 0 else None,
         "worst_case": worst[0],
         "min_environment_effect": None if not np.isfinite(min_move) else _r3(min_move),
-        "trivial_evaluations": trivial,
+        "trivial_distinct": len(trivial),
+        "nontrivial_threshold": MOVE,
+        "closest_effect_to_threshold": None if not np.isfinite(gap) else _r3(gap),
         "per_producer_max": {p_: {e_: {k_: _r3(v_) for k_, v_ in d_.items()} for e_, d_ in x_.items()}
                              for p_, x_ in stats.items()},
     }
